@@ -199,6 +199,16 @@ func VerifyNODATANSEC(msg *dns.Msg, nsecSet []dns.RR) error {
 				return ErrNSECBadDelegation
 			}
 
+			// The converse (RFC 6840 §4.1): the parent-side NSEC of a
+			// delegation point (NS without SOA) is authoritative for
+			// DS only. Every other type at that name lives in the
+			// child zone, so its absence from this bitmap proves
+			// nothing.
+			if q.Qtype != dns.TypeDS && typesSet(nsec.TypeBitMap, dns.TypeNS) &&
+				!typesSet(nsec.TypeBitMap, dns.TypeSOA) {
+				return ErrNSECBadDelegation
+			}
+
 			return nil
 		}
 	}
